@@ -4,6 +4,7 @@ counted as *events*:
 
     open-w     builtins.open / tarfile.bltn_open of a file for writing (about to create / truncate it)
     write      .write() on a file object obtained that way
+    close      closing such a file object (dying before it loses what is still buffered)
     rename     os.rename        remove  os.remove        run  subprocess.run
 
 When `crash_after` events have completed and the next one is about to happen the child dies with os._exit(137): no `finally`
@@ -101,11 +102,18 @@ class _WriteProxy:
     def __setattr__(self, name, value):
         setattr(self._f, name, value)
 
+    def close(self):
+        if not self._f.closed:
+            self._ctl.event("close", self._path)
+        return self._f.close()
+
     def __enter__(self):
         self._f.__enter__()
         return self
 
     def __exit__(self, *a):
+        if not self._f.closed:
+            self._ctl.event("close", self._path)
         return self._f.__exit__(*a)
 
     def __iter__(self):
